@@ -182,7 +182,7 @@ package types
 // ---- C09 / C16: retrieval helper -------------------------------------------------------------
 
 //@ func RetrieveWithHelpers(ctx, da, logger, dataLayerHeight, namespace) (res)
-//@   property C09 C16 C07:ids-error-other,get-error,ids-error-future,no-data-unless-success C02:ids-error-other,get-error
+//@   property C09 C16 C07:ids-error-other,get-error,ids-error-future,no-data-unless-success C02:ids-error-other,get-error C20:ids-error-other,get-error,no-data-unless-success
 //@   observe gi := call GetIDs@1
 //@   observe get := call Get
 //@   ensures [height] res.Height == dataLayerHeight
